@@ -33,7 +33,10 @@ const SharedHost = "shared.example.com"
 // Ctl is a control event triggered when the At-th request reaches the simulated network.
 type Ctl struct {
 	At   int    `json:"at"`
-	Kind string `json:"kind"` // pause-resume | pause-stop | stop
+	Kind string `json:"kind"` // pause-resume | pause-stop | stop (At = request number) | hookpause-resume | hookpause-stop (At = hit number of Point)
+	// Point: a verifhook event point; the pause is issued synchronously from inside the pipeline at its At-th hit, so it
+	// can land while a worker of the next stage is about to take (or is processing) the very seed that raised the event
+	Point string `json:"point,omitempty"`
 }
 
 type siteBuilder struct {
@@ -158,6 +161,12 @@ func (b *siteBuilder) page() string {
 		} else {
 			r.Links = append(r.Links, b.name("l", ""))
 		}
+	}
+	if b.pick("hdrlinks", 4) == 0 {
+		for i := 0; i < 1+b.pick("nhdr", 2); i++ {
+			r.HdrLinks = append(r.HdrLinks, b.name("hl", ""))
+		}
+		b.feat["link-header"] = true
 	}
 	b.site[u] = b.failing(r)
 	return u
